@@ -183,13 +183,15 @@ def run_mlhs(cases):
         reset()
         try:
             np.random.seed(c['seed'])
-            u = np.array([n / d for n, d in c['us']], dtype=float)
+            u = None if c.get('us') is None else np.array([n / d for n, d in c['us']], dtype=float)
             a = draws.get_latin_hypercube_draws(c['ss'], c['n'], symmetric=c['symmetric'], uniform_numbers=u)
             r = {'ok': True}
             r.update(arr_out(a))
             r['shuffle'] = list(REC['shuffle'])
             r['shuffle_ok'] = REC['shuffle_ok']
             r['n_uniform'] = len(REC['uniform'])
+            if c.get('us') is None:
+                r['uniform'] = list(REC['uniform'])
         except Exception as e:  # noqa
             r = err(e)
         out.append(r)
